@@ -89,7 +89,10 @@ Definition parser_spec_ok (c : parser_case) : bool :=
 (* ------------------------------------------------------------------ JWT gate histories *)
 Record jrow := mkjrow {
   jr_now : Z; jr_jt : Z; jr_tok : N;
-  jr_status : Z; jr_ran : bool; jr_ctx : list (string * N); jr_cb : bool
+  jr_status : Z; jr_ran : bool; jr_ctx : list (string * N); jr_cb : bool;
+  jr_expect : N   (* what the token's maker knows by construction: 1 = HMAC-family alg (HS256/384/512), signed with the current
+                     or the previous secret, time claims valid: must be accepted; 2 = none / non-HMAC alg / foreign secret /
+                     expired: must be refused; 0 = no statement *)
 }.
 
 Record jwt_case := mkjc {
@@ -112,6 +115,7 @@ Definition jwt_spec_ok (c : jwt_case) : bool :=
   forallb (fun r =>
     let adm := jwt_accept (jwt_ok_of (jc_table c) (jr_jt r)) (jc_secret c) (jc_prev c) (jr_tok r) in
     Bool.eqb (jr_ran r) adm &&
+    (match jr_expect r with 1%N => jr_ran r | 2%N => negb (jr_ran r) | _ => true end) &&
     if adm then
       (jr_status r =? 200) &&
       claims_eqb (jr_ctx r) (visible_claims (claims_of (jc_table c) (jr_jt r) (jc_secret c) (jc_prev c) (jr_tok r)))
